@@ -385,11 +385,15 @@ fn main() {
             s.case(&format!("ssi {} {} {} {}", d0, d1, w, rr), &format!("{} {}", p.0, p.1), true);
             if let Some(pr) = ssi_all(&l, true) { s.oracle(pr == p, "ssi is the same for the reduced and unreduced theories", name, &format!("{:?} vs {:?}", p, pr)); }
             for (vn, il) in &variants {
-                if vn.ends_with("-reordered") {
-                    match ssi_all(il, r.bool()) { Some(q) => s.oracle(q == p, "ssi does not depend on the order in which crossings are listed", vn, &format!("{:?} vs {:?}", p, q)), None => s.oracle(false, "ssi_invariants terminates without panic", vn, "panic/timeout") }
-                }
-                if vn.ends_with("-mirror") {
-                    match ssi_all(il, false) { Some(q) => s.oracle(q == (-p.1, -p.0), "mirroring negates and swaps (s0, s1)", vn, &format!("{:?} vs mirror {:?}", p, q)), None => s.oracle(false, "ssi_invariants terminates without panic", vn, "panic/timeout") }
+                // both theories: the reduced one picks its base point / colouring from the code, so it is the one that notices listings
+                for red in [false, true] {
+                    let vr = format!("{} reduced={}", vn, red as u8);
+                    if vn.ends_with("-reordered") {
+                        match ssi_all(il, red) { Some(q) => s.oracle(q == p, "ssi does not depend on the order in which crossings are listed", &vr, &format!("{:?} vs {:?}", p, q)), None => s.oracle(false, "ssi_invariants terminates without panic", &vr, "panic/timeout") }
+                    }
+                    if vn.ends_with("-mirror") {
+                        match ssi_all(il, red) { Some(q) => s.oracle(q == (-p.1, -p.0), "mirroring negates and swaps (s0, s1)", &vr, &format!("{:?} vs mirror {:?}", p, q)), None => s.oracle(false, "ssi_invariants terminates without panic", &vr, "panic/timeout") }
+                    }
                 }
             }
             s.count(&format!("ssi.{},{}", p.0, p.1));
